@@ -264,6 +264,18 @@ def r09_4(ctx, rep):
            "`__left_inner` must be computed from the clause's left reference and `__right_inner` from its right reference (found %s)" % stores)
 
 
+@SPEC.rule(
+    "R09.5",
+    "connection sets are built from the classes of the model at hand: tree.py keeps no module-level memo (a flattened connector "
+    "class remembered by name is reused for another connector class of the same name, whose extra variables then get no "
+    "equations and whose flows are zeroed)",
+)
+def r09_5(ctx, rep):
+    from .c25 import module_state_free
+
+    module_state_free(ctx, rep, "R09.5", TREE, "tree.py (expand_connectors and its helpers)")
+
+
 # -- seeded variants ---------------------------------------------------------
 from ._mut import delete_stmt_where, replace_in_func  # noqa: E402
 
